@@ -1145,8 +1145,16 @@ def plan_c14(ctx):
 def plan_c15(ctx):
     rng = ctx["rng"]
     for i in range(T(ctx, 300, 2500)):
-        mk = gen.shadow_program if i % 2 == 0 else gen.rel_program
-        a = mk(rng, i, True)
+        if i % 3 == 2:
+            # pattern variables named like variables of the matched term / of the enclosing scope
+            a = gen.match_program(rng, i)
+            tries = 0
+            while not a["names"] and tries < 20:
+                a = gen.match_program(rng, i)
+                tries += 1
+        else:
+            mk = gen.shadow_program if i % 3 == 0 else gen.rel_program
+            a = mk(rng, i, True)
         b = dict(a, names={})      # the alpha-renamed twin: same AST, globally unique names
         g = "%s-%s" % (ctx["prop"], a["id"])
         a = as_case(ctx, a, "-shadow")
